@@ -3,24 +3,60 @@
 Carriers: bluesky/run_engine.py: Dispatcher.subscribe / unsubscribe / unsubscribe_all / process, RunEngine._subscribe /
 _unsubscribe / _clear_call_cache (token bookkeeping); bluesky/utils: CallbackRegistry.connect / disconnect / process /
 _remove_proxy, _BoundMethodProxy.__init__ / __eq__ / __hash__ / __call__.
-Abstract view: subs: token -> (callable, document names); delivers(name) = callables of the live tokens subscribed to
-`name`.  Clauses from the statement: subscribe returns a fresh token and adds exactly that subscription; unsubscribe(t)
-removes t's subscription and leaves the deliveries of every other token unchanged - also when the same callable is
-subscribed more than once; per-call / in-plan tokens are dropped by _clear_call_cache, permanent ones are kept.
+Abstract view (contracts/refs/c18_view.py, shared with the native replay): subs: token -> (callable, filter, lifetime);
+issued: every token ever handed out; live(name) = multiset of the callables of the live tokens whose filter covers `name`;
+a callable receives a document exactly once iff live(name) holds it.  Clauses from the statement: subscribe returns a token
+never handed out before (live or dead) and adds exactly that subscription; unsubscribe(t) removes t's subscription and
+leaves the deliveries of every other token unchanged - also when the same callable is subscribed more than once, with equal
+or with different, overlapping filters; a dead / unknown token changes nothing; per-call / in-plan tokens are dropped when
+the next call starts (_clear_call_cache), permanent ones are kept.
+
+The quantifier ("arbitrary sequences of subscribe / unsubscribe ... with repeated callables") is explored as a *choice
+sequence*: every history of at most HISTORY_DEPTH / ENGINE_DEPTH operations over the menus below is executed on the real
+code and judged after every operation by (a) the freshness of the token, (b) the deliveries of all twelve document names
+against the view, (c) the representation invariant REP linking the concrete fields to the view (so that a corruption is
+reported at the operation that introduces it, not only when it becomes observable some operations later):
+  REP1 dom(_token_mapping) = dom(subs)
+  REP2 _token_mapping[t] = the registration ids under which the registry holds t's callable, one per covered name
+  REP3 registry.callbacks[name] holds exactly one registration per callable of live(name) and nothing else
+  REP4 registry._func_cid_map[name] is the inverse of callbacks[name] (no stale entry that a later connect would re-use)
+  REP5 (engine) every live per-call / in-plan token is in _temp_callback_ids and no permanent token is
+An operation that must change nothing (dead / unknown token) is checked to leave the whole object graph unchanged; the
+history is not continued behind it (the state is literally the one before).
 """
+import os
+
 from .lib import *
 from .re_lib import *
 
 PROP = "C18"
 MU = "bluesky.utils"
 D = f"{MR}:Dispatcher"
+HERE = os.path.dirname(os.path.dirname(os.path.abspath(__file__)))
+V = {}
+exec(compile(open(os.path.join(HERE, "contracts/refs/c18_view.py")).read(), "c18_view", "exec"), V)
+View = V["View"]
+THOROUGH = os.environ.get("VERIF_TIER") == "thorough"
+HISTORY_DEPTH = int(os.environ.get("C18_HISTORY_DEPTH", 5 if THOROUGH else 4))
+ENGINE_DEPTH = int(os.environ.get("C18_ENGINE_DEPTH", 4 if THOROUGH else 3))
+H_BOUND = (f"histories of at most {HISTORY_DEPTH} Dispatcher operations over callables f, g (introduced in this order) and filters all / event / stop; "
+           "not continued behind an operation that left the whole state unchanged")
+E_BOUND = (f"histories of at most {ENGINE_DEPTH} RunEngine operations (permanent / per-call / in-plan subscribe, unsubscribe, new call) over the "
+           "subscriptions f:all, f:event, g:all; not continued behind an operation that left the whole state unchanged")
 TRUSTED = ["weakref.WeakKeyDictionary modelled as an equality-keyed map (keys compared with the proxies' own __eq__); garbage collection of "
            "callback owners (weak references dying) is not modelled: callbacks are plain functions that stay alive",
            "event_model.DocumentNames is the enumeration of the document names; itertools.count yields 0, 1, 2, ...",
-           "callbacks are abstract functions recording their calls"]
-NOT_DECIDED = "bound-method callbacks whose owner is garbage-collected (automatic unsubscription through weak references)"
+           "callbacks are abstract functions recording their calls",
+           "history tasks: " + H_BOUND + "; " + E_BOUND + " (enumerated shapes, every choice explored; no induction over the length)",
+           "the per-call subscriptions of RE(plan, subs) are made by the loop over normalize_subs_input(subs) inside RunEngine.__call__, executed "
+           "here as a fragment of the real function body (the loop using _temp_callback_ids together with the self._clear_*() calls directly in "
+           "front of it); the rest of __call__ / _run does not touch subscriptions",
+           "documents are observed by Dispatcher.process of one document per name after every operation (the native replay of the RunEngine "
+           "histories performs a real run instead: start, descriptor, event, stop)"]
+NOT_DECIDED = ("bound-method callbacks (equal but not identical callables; automatic unsubscription through weak references when the owner is "
+               "garbage-collected); histories longer than the stated bounds; RunEngine.reset")
 KF = "C18-equal-callables-share-registration"
-DOCNAMES = ["start", "stop", "event", "descriptor", "event_page", "datum", "resource", "datum_page", "stream_resource", "stream_datum", "bulk_events", "bulk_datum"]
+DOCNAMES = V["DOCNAMES"]
 
 
 class DocName:
@@ -86,7 +122,7 @@ def eq_map(I):
         del items[i]
     return Opaque("WeakKeyDictionary", {"getitem": getitem, "setitem": setitem, "delitem": delitem,
                                         "contains": lambda I_, o, k: find(I_, k) is not None, "iter": lambda I_, o: [k for k, v in items],
-                                        "len": lambda I_, o: len(items), "truth": "len", "isinstance_default": False,
+                                        "len": lambda I_, o: len(items), "truth": "len", "isinstance_default": False, "attrs": {"$items": items},
                                         "methods": {"items": lambda I_, o, a, k: list(items), "setdefault": None}})
 
 
@@ -155,7 +191,7 @@ def same_callable(I):
     t1 = call_method(I, d, "subscribe", f, "event")
     t2 = call_method(I, d, "subscribe", f, w.choose(["event", "all"], "second subscription kind"))
     doc = Opaque("doc", {"token": "doc"})
-    call_method(I, d, "unsubscribe", w.choose([t2, t1], "token removed"))
+    call_method(I, d, "unsubscribe", t2 if w.choose(["second", "first"], "token removed") == "second" else t1)
     call_method(I, d, "process", names["event"], doc)
     got = delivered(log)
     w.check_kf(f"{D}.unsubscribe#ensures[removing one subscription of a callable does not silence its other subscription]",
@@ -197,8 +233,402 @@ def engine_tokens(I):
     after = delivered(log)
     w.check(f"{RE}._clear_call_cache#ensures[per-call and in-plan subscriptions dropped, permanent ones kept]",
             r1[0] == "ok" and before == ["permanent", "in-plan", "per-call"] and after == ["permanent"] and len(re_._temp_callback_ids) == 0,
-            {"replay": "dispatcher.subscriptions"})
+            {"replay": "dispatcher.engine_tokens"})
     call_method(I, re_, "unsubscribe", tp)
     call_method(I, d, "process", names["event"], doc)
     w.check(f"{RE}.unsubscribe#ensures[a permanent subscription ends when its own token is unsubscribed]", delivered(log) == [],
-            {"replay": "dispatcher.subscriptions"})
+            {"replay": "dispatcher.engine_tokens"})
+
+
+# ------------------------------------------------------------------------------------------------ histories (choice sequences)
+FRESH = "#ensures[the token was never handed out before, live or dead]"
+D_FRESH = f"{D}.subscribe{FRESH}"
+D_SUB = f"{D}.subscribe#ensures[adds exactly the requested subscription: every document name is received exactly once by exactly the callables with a live subscription covering it]"
+D_UNSUB = f"{D}.unsubscribe#ensures[ends exactly its own subscription: no other subscription loses or gains a document, also one of the same callable]"
+D_NOOP = f"{D}.unsubscribe#ensures[a dead or unknown token changes nothing]"
+D_ALL = f"{D}.unsubscribe_all#ensures[every subscription ends]"
+D_REP = f"{D}#invariant[REP1-REP4: token mapping and registry agree with the live subscriptions after every operation]"
+E_FRESH = f"{RE}.subscribe{FRESH}"
+E_SUB = f"{RE}.subscribe#ensures[permanent subscription: exactly the requested deliveries are added]"
+E_UNSUB = f"{RE}.unsubscribe#ensures[ends exactly its own subscription, permanent or temporary]"
+E_NOOP = f"{RE}.unsubscribe#ensures[a dead token changes nothing]"
+E_CALL = f"{RE}.__call__#ensures[the previous call's per-call and in-plan subscriptions are dropped, permanent ones are kept, the per-call subscription is added]"
+E_MSUB = f"{RE}._subscribe#ensures[in-plan subscription: returns its token, exactly the requested deliveries are added]"
+E_MUNSUB = f"{RE}._unsubscribe#ensures[ends exactly its own subscription]"
+E_REP = f"{RE}#invariant[REP1-REP5: token mapping, registry and _temp_callback_ids agree with the live subscriptions after every operation]"
+
+
+def snapshot(v, depth=0):
+    """canonical description of an object-language value (the whole object graph below it)"""
+    import collections
+    nxt = depth + 1
+    if depth > 14:
+        return "..."
+    if isinstance(v, Obj):
+        return ("obj", v.cls.name, tuple(sorted((k, snapshot(x, nxt)) for k, x in v.attrs.items())))
+    if isinstance(v, Opaque):
+        items = v.spec.get("attrs", {}).get("$items") if isinstance(v.spec.get("attrs"), dict) else None
+        if items is not None:
+            return ("map", tuple((snapshot(k, nxt), snapshot(x, nxt)) for k, x in items))
+        return ("opaque", v.name)
+    if isinstance(v, dict):
+        return ("dict", tuple((snapshot(k, nxt), snapshot(x, nxt)) for k, x in v.items()))
+    if isinstance(v, (list, tuple, collections.deque)):
+        return (type(v).__name__, tuple(snapshot(x, nxt) for x in v))
+    if isinstance(v, (set, frozenset)):
+        return ("set", tuple(sorted(repr(snapshot(x, nxt)) for x in v)))
+    if isinstance(v, Counter):
+        return ("count", v.n)
+    if v is None or isinstance(v, (int, str, bool, float)):
+        return v
+    if isinstance(v, Closure):
+        return ("fn", v.qualname)
+    if isinstance(v, BoundMethod):
+        return ("bound", snapshot(v.func, nxt))
+    lab = getattr(v, "_canon_label", None)
+    if lab is not None:
+        return ("callback", lab)
+    return ("host", type(v).__name__)
+
+
+def _label(x):
+    lab = getattr(x, "_canon_label", None)
+    return lab if lab is not None else repr(x)
+
+
+def concrete_of(d):
+    """the concrete fields REP talks about, as plain data (see contracts/refs/c18_view.py rep_problems)"""
+    tm = d.attrs.get("_token_mapping")
+    reg = d.attrs.get("cb_registry")
+    if not isinstance(tm, dict) or not isinstance(reg, Obj) or not isinstance(reg.attrs.get("callbacks"), dict) or not isinstance(reg.attrs.get("_func_cid_map"), dict):
+        raise EngineError("Dispatcher / CallbackRegistry representation changed (_token_mapping, cb_registry.callbacks, _func_cid_map): restate REP")
+    return {"tokens": {t: list(v) if isinstance(v, (list, tuple)) else [v] for t, v in tm.items()},
+            "callbacks": {sig.spec["attrs"]["name"]: [(cid, _label(proxy.attrs.get("func"))) for cid, proxy in cd.items()] for sig, cd in reg.attrs["callbacks"].items()},
+            "func_cid": {sig.spec["attrs"]["name"]: [(_label(proxy.attrs.get("func")), cid) for proxy, cid in m.spec["attrs"]["$items"]]
+                         for sig, m in reg.attrs["_func_cid_map"].items()}}
+
+
+class Bench:
+    """the real Dispatcher, recording callbacks, the abstract view, and the history so far"""
+    labels = ("f", "g")
+
+    def __init__(self, I):
+        self.I, self.w = I, I.w
+        self.names = install(I)
+        self.log = []
+        self.cbs = {c: callback(self.log, c) for c in self.labels}
+        self.d = new_dispatcher(I)
+        self.view = View()
+        self.ops = []
+        self.tokens = []
+        self.doc = Opaque("doc", {"token": "doc"})
+
+    def state(self):
+        return snapshot(self.d)
+
+    observed = DOCNAMES             # the document names emitted after every operation
+
+    def observe(self):
+        received = {}
+        for n in self.observed:
+            call_method(self.I, self.d, "process", self.names[n], self.doc)
+            received[n] = [lab if a[0] == n and a[1] is self.doc else f"{lab}(wrong arguments)" for lab, a in self.log]
+            self.log.clear()
+        return received
+
+    def info(self, problems):
+        return {"replay": self.replay, "ops": list(self.ops), "problems": [str(p) for p in problems[:4]]}
+
+    def judge(self, name, problems):
+        """one obligation of the current operation; a failed one ends the history (the view cannot follow a broken state)"""
+        if self.w.ch.replaying and not problems:
+            return                      # this prefix was judged on the path that first took it
+        self.w.check(name, not problems, self.info(problems))
+        if problems:
+            raise PathEnd("violation")
+
+    def real(self, f, *a, **k):
+        r = catch(self.I, f, *a, **k)
+        if r[0] == "raise":
+            return None, [f"raised {r[1]!r}"]
+        return r[1], []
+
+    def judge_state(self, name, rep):
+        if self.w.ch.replaying:
+            return                      # this prefix was judged on the path that first took it
+        p_rep, p_del = self.rep(), V["delivery_problems"](self.view, self.observe(), self.observed)
+        self.w.check(rep, not p_rep, self.info(p_rep))
+        self.w.check(name, not p_del, self.info(p_del))
+        if p_rep or p_del:
+            raise PathEnd("violation")
+
+    def rep(self):
+        return V["rep_problems"](self.view, concrete_of(self.d))
+
+    def noop(self, name, before):
+        """an operation that must change nothing: judged on the whole object graph; the history ends here"""
+        after = self.state()
+        self.judge(name, [] if after == before else ["the state changed"] + self.rep() + V["delivery_problems"](self.view, self.observe(), self.observed))
+        raise PathEnd("state unchanged")
+
+
+class DispatcherBench(Bench):
+    replay = "dispatcher.history"
+
+    def menu(self):
+        used = {s[0] for s in self.view.subs.values()} | {p.split()[1] for p in self.ops if p.startswith("subscribe ")}
+        m = [f"subscribe {c} {filt}" for c in (["f", "g"] if "f" in used else ["f"]) for filt in ("all", "event", "stop")]
+        m += [f"unsubscribe #{i}" for i in range(len(self.tokens))]
+        return m + ["unsubscribe unknown", "unsubscribe_all"]
+
+    def step(self, op):
+        I, d, view = self.I, self.d, self.view
+        kind, c, filt, idx = V["parse"](op)
+        self.ops.append(op)
+        if kind == "subscribe":
+            t, bad = self.real(I.getattr(d, "subscribe"), *V["subscribe_args"](c, filt, self.cbs))
+            self.judge(D_FRESH, bad or V["fresh_token_problems"](view, t))
+            self.tokens.append(t)
+            view.subscribed(t, c, filt)
+            self.judge_state(D_SUB, D_REP)
+        elif kind == "unsubscribe":
+            t = V["UNKNOWN_TOKEN"] if idx == "unknown" else self.tokens[idx]
+            live = t in view.subs
+            before = None if live else self.state()
+            _, bad = self.real(I.getattr(d, "unsubscribe"), t)
+            self.judge(D_UNSUB if live else D_NOOP, bad)
+            if not live:
+                self.noop(D_NOOP, before)
+            view.unsubscribed(t)
+            self.judge_state(D_UNSUB, D_REP)
+        elif kind == "unsubscribe_all":
+            empty = not view.subs
+            before = self.state() if empty else None
+            _, bad = self.real(I.getattr(d, "unsubscribe_all"))
+            self.judge(D_ALL, bad)
+            if empty:
+                self.noop(D_ALL, before)
+            view.unsubscribed_all()
+            self.judge_state(D_ALL, D_REP)
+        else:
+            raise EngineError(op)
+
+
+@task("dispatcher.history", PROP,
+      functions=[f"{D}.__init__", f"{D}.subscribe", f"{D}.unsubscribe", f"{D}.unsubscribe_all", f"{D}.process", f"{MU}:CallbackRegistry.connect",
+                 f"{MU}:CallbackRegistry.disconnect", f"{MU}:CallbackRegistry.process", f"{MU}:_BoundMethodProxy.__init__", f"{MU}:_BoundMethodProxy.__eq__",
+                 f"{MU}:_BoundMethodProxy.__call__"],
+      expect=[D_FRESH, D_SUB, D_UNSUB, D_NOOP, D_ALL, D_REP], covers=["same callable live under two overlapping filters", "a token older than a live one is dead"],
+      bounded=H_BOUND, timeout_s=3000, path_cap=400000)
+def dispatcher_history(I):
+    b = DispatcherBench(I)
+    for _ in range(HISTORY_DEPTH):
+        b.step(I.w.choose(b.menu(), "operation"))
+        v = b.view
+        if any(len(v.live(n)) > len(v.receivers(n)) for n in ("event", "stop")) and len({s[1] for s in v.subs.values()}) > 1:
+            I.w.cover("same callable live under two overlapping filters")
+        if v.subs and any(t not in v.subs and t < max(v.subs) for t in v.issued):
+            I.w.cover("a token older than a live one is dead")
+
+
+# ------------------------------------------------------------------------------------------------ RunEngine histories
+def call_prologue(I):
+    """the statements of the real RunEngine.__call__ that end the previous call's subscriptions and make the per-call ones: the loop
+    over normalize_subs_input(subs) that fills _temp_callback_ids, together with the self._clear_*() calls directly in front of it"""
+    import ast
+    clo = I.get_function(f"{RE}.__call__")
+
+    def uses_temp(st):
+        return any(isinstance(n, ast.Attribute) and n.attr == "_temp_callback_ids" for n in ast.walk(st))
+
+    def blocks(node):
+        for fld in ("body", "orelse", "finalbody"):
+            b = getattr(node, fld, None)
+            if isinstance(b, list) and b and isinstance(b[0], ast.stmt):
+                yield b
+                for st in b:
+                    if not isinstance(st, (ast.FunctionDef, ast.AsyncFunctionDef, ast.ClassDef)):
+                        yield from blocks(st)
+    found = [(b, i) for b in blocks(clo.node) for i, st in enumerate(b) if isinstance(st, ast.For) and uses_temp(st)]
+    if found:
+        inside = {id(n) for n in ast.walk(found[0][0][found[0][1]])}
+        found = [found[0]] + [(b, i) for b, i in found[1:] if id(b[i]) not in inside]       # the outermost loop
+    if len(found) != 1:
+        raise EngineError(f"RunEngine.__call__: expected one loop making the per-call subscriptions, found {len(found)} (shape changed)")
+    b, i = found[0]
+    j = i
+    while j > 0 and isinstance(b[j - 1], ast.Expr) and isinstance(b[j - 1].value, ast.Call) and isinstance(b[j - 1].value.func, ast.Attribute) \
+            and isinstance(b[j - 1].value.func.value, ast.Name) and b[j - 1].value.func.value.id == "self" and b[j - 1].value.func.attr.startswith("_clear_"):
+        j -= 1
+    return clo, b[j:i + 1]
+
+
+def run_call_prologue(I, re_, subs):
+    from pyvc.interp import Frame, scope_info
+    clo, stmts = call_prologue(I)
+    fr = Frame(clo, None, scope_info(clo.node)[0], I)
+    fr.vars.update({"self": re_, "subs": subs})
+    I.run(I.ex_block(stmts, fr))
+
+
+class EngineBench(Bench):
+    replay = "dispatcher.engine_history"
+    observed = ["start", "descriptor", "event", "stop"]     # what one run of a plan emits (REP3 speaks about all twelve names)
+    SUBS = (("f", "all"), ("f", "event"), ("g", "all"))
+
+    def __init__(self, I):
+        super().__init__(I)
+        w = I.w
+        self.returned = []
+
+        def record(I_, f, a, k):
+            r = yield from I_.call_closure(f, a, k)
+            self.returned.append(r)
+            return r
+        I.call_hooks[f"{D}.subscribe"] = record
+        I.call_hooks[f"{RE}._reset_checkpoint_state_coro"] = lambda I_, f, a, k: ret(Ready(None))
+        w.stubs["asyncio.Event"] = lambda I_, a, k: Opaque("event", {"isinstance_default": False})
+        w.stubs[(MR, "deque")] = native(lambda I_, a, k: __import__("collections").deque())
+        self.re = make_re(I, Env(I), dispatcher=self.d, _msg_cache=None)
+        for fld, val in (("_deferred_pause_requested", False), ("_plan_stack", None), ("_response_stack", None), ("_exception", None),
+                         ("_task_fut", None), ("_pardon_failures", None), ("_plan", None), ("_interrupted", False), ("_exit_status", "success"),
+                         ("_reason", ""), ("_task", None), ("_status_tasks", None), ("_loop_for_kwargs", {}), ("_cleaning_up", False),
+                         ("_interruptions_desc_uid", None), ("_interruptions_counter", None)):
+            self.re.attrs.setdefault(fld, val)
+        self.in_call = False
+
+    def temp_ids(self):
+        t = self.re.attrs.get("_temp_callback_ids")
+        if not isinstance(t, (set, list)):
+            raise EngineError("RunEngine._temp_callback_ids representation changed: restate REP5")
+        return set(t)
+
+    def state(self):
+        return (snapshot(self.d), snapshot(self.temp_ids()))
+
+    def rep(self):
+        return V["rep_problems"](self.view, concrete_of(self.d), self.temp_ids())
+
+    def menu(self):
+        v = self.view
+        m = ["call -"] + [f"call {c}:{filt}" for c, filt in self.SUBS]
+        if self.in_call:
+            m += [f"msg subscribe {c} {filt}" for c, filt in self.SUBS]
+            m += [f"msg unsubscribe #{i}" for i, t in enumerate(self.tokens) if t in v.subs and v.subs[t][2] != "permanent"]
+        m += [f"subscribe {c} {filt}" for c, filt in self.SUBS]
+        return m + [f"unsubscribe #{i}" for i in range(len(self.tokens))]
+
+    def step(self, op):
+        I, re_, view = self.I, self.re, self.view
+        kind, c, filt, idx = V["parse"](op)
+        self.ops.append(op)
+        if kind == "subscribe":
+            t, bad = self.real(I.getattr(re_, "subscribe"), self.cbs[c], filt)
+            self.judge(E_FRESH, bad or V["fresh_token_problems"](view, t))
+            self.tokens.append(t)
+            view.subscribed(t, c, filt, "permanent")
+            self.judge_state(E_SUB, E_REP)
+        elif kind == "unsubscribe":
+            t = self.tokens[idx]
+            live = t in view.subs
+            before = None if live else self.state()
+            _, bad = self.real(I.getattr(re_, "unsubscribe"), t)
+            self.judge(E_UNSUB if live else E_NOOP, bad)
+            if not live:
+                self.noop(E_NOOP, before)
+            view.unsubscribed(t)
+            self.judge_state(E_UNSUB, E_REP)
+        elif kind == "call":
+            del self.returned[:]
+            subs = None if c is None else (self.cbs[c] if filt == "all" else {filt: [self.cbs[c]]})
+            bad = []
+            try:
+                run_call_prologue(I, re_, subs)
+            except PyRaise as pr:
+                bad = [f"raised {pr.exc!r}"]
+            self.judge(E_CALL, bad)
+            view.call_started()
+            self.in_call = True
+            if c is not None:
+                p = [f"the per-call subscription produced the tokens {self.returned} (expected one)"] if len(self.returned) != 1 else \
+                    V["fresh_token_problems"](view, self.returned[0])
+                self.judge(E_FRESH, p)
+                self.tokens.append(self.returned[0])
+                view.subscribed(self.returned[0], c, filt, "per-call")
+            self.judge_state(E_CALL, E_REP)
+        elif kind == "msg subscribe":
+            r = call_async(I, I.getattr(re_, "_subscribe"), MsgVal("subscribe", None, (self.cbs[c], filt), {}, None))
+            self.judge(E_FRESH, [f"raised {r[1]!r}"] if r[0] != "ok" else V["fresh_token_problems"](view, r[1]))
+            self.tokens.append(r[1])
+            view.subscribed(r[1], c, filt, "in-plan")
+            self.judge_state(E_MSUB, E_REP)
+        elif kind == "msg unsubscribe":
+            t = self.tokens[idx]
+            msg = MsgVal("unsubscribe", None, (t,), {}, None) if t % 2 else MsgVal("unsubscribe", None, (), {"token": t}, None)
+            r = call_async(I, I.getattr(re_, "_unsubscribe"), msg)
+            self.judge(E_MUNSUB, [f"raised {r[1]!r}"] if r[0] != "ok" else [])
+            view.unsubscribed(t)
+            self.judge_state(E_MUNSUB, E_REP)
+        else:
+            raise EngineError(op)
+
+
+ENGINE_FUNCTIONS = [f"{RE}.subscribe", f"{RE}.unsubscribe", f"{RE}._subscribe", f"{RE}._unsubscribe", f"{RE}._clear_call_cache", f"{RE}._clear_run_cache",
+                    f"{RE}.__call__", "bluesky.utils:normalize_subs_input", f"{D}.subscribe", f"{D}.unsubscribe", f"{MU}:CallbackRegistry.connect",
+                    f"{MU}:CallbackRegistry.disconnect", f"{MU}:CallbackRegistry.process"]
+
+
+COV_SAME = "a per-call subscription ended while the same callable stays subscribed permanently"
+COV_INPLAN = "an in-plan subscription ended with its call"
+COV_LATER = "a permanent subscription made after a per-call one survives the next call"
+
+
+def engine_history_task(first, expect, covers):
+    """`first` = None: all histories in one task; otherwise one task per first operation of the history (the tasks run in parallel;
+    together they are all histories of the bound)"""
+    @task("engine.history" + (f"[{first}]" if first else ""), PROP, functions=ENGINE_FUNCTIONS, expect=expect, covers=covers, bounded=E_BOUND,
+          timeout_s=3000, path_cap=400000)
+    def engine_history(I):
+        b = EngineBench(I)
+        for k in range(ENGINE_DEPTH):
+            before = dict(b.view.subs)
+            menu = b.menu()
+            if k == 0 and first and first not in menu:
+                raise EngineError(f"{first} is not a first operation")
+            op = first if k == 0 and first else I.w.choose(menu, "operation")
+            b.step(op)
+            if op.startswith("call"):
+                gone = [s for t, s in before.items() if t not in b.view.subs]
+                if any(s[2] == "per-call" and any(p[0] == s[0] and p[2] == "permanent" for p in b.view.subs.values()) for s in gone):
+                    I.w.cover(COV_SAME)
+                if any(s[2] == "in-plan" for s in gone):
+                    I.w.cover(COV_INPLAN)
+                if gone and any(s[2] == "permanent" and t > min(tt for tt in before if tt not in b.view.subs) for t, s in b.view.subs.items()):
+                    I.w.cover(COV_LATER)
+    return engine_history
+
+
+def _engine_tasks():
+    class _Probe:
+        view, in_call, tokens, SUBS = View(), False, [], EngineBench.SUBS
+    everything = [E_FRESH, E_SUB, E_UNSUB, E_NOOP, E_CALL, E_MSUB, E_MUNSUB, E_REP]
+    if ENGINE_DEPTH < 4:
+        engine_history_task(None, everything, [COV_SAME, COV_INPLAN, COV_LATER])
+        return
+    for first in EngineBench.menu(_Probe):
+        engine_history_task(first, everything, {"subscribe f all": [COV_SAME], "call -": [COV_INPLAN], "call f:event": [COV_LATER]}.get(first, []))
+
+
+_engine_tasks()
+
+
+TWIN = "twin:a callable subscribed twice receives every document twice"
+
+
+@task("twin.double_delivery", PROP, functions=[f"{D}.subscribe", f"{MU}:CallbackRegistry.connect"], twin=TWIN)
+def twin_double(I):
+    """must fail: the wrong reading of 'subscribed more than once' (one delivery per token instead of one per callable)"""
+    b = DispatcherBench(I)
+    for op in ("subscribe f event", "subscribe f all"):
+        b.step(op)
+    I.w.check(TWIN, b.observe()["event"] == ["f", "f"], {"ops": list(b.ops)})
